@@ -570,8 +570,9 @@ func buildOne(p *program, cfg buildCfg) BuildOut {
 		}
 	}
 	// RuntimeTypes keeps, among identical types, whichever spelling its map iteration meets first
-	// (os.FileMode / io/fs.FileMode), so it is not used to choose the MethodValue calls; it is called here, and
-	// concurrently below, for thread safety only. Its size is compared across builds.
+	// (os.FileMode / io/fs.FileMode) and then skips the element types of an alias-spelled one, so neither its
+	// content nor its size is a function of the build. It is not used to choose the MethodValue calls and is
+	// not compared; it is called here, and concurrently below, for thread safety (race detector) only.
 	out.RTypes = []string{strconv.Itoa(len(prog.RuntimeTypes()))}
 	lap("selections")
 	out.MVStart = ir.VerifC18Len()
@@ -1144,9 +1145,10 @@ func main() {
 					}
 				}
 			}
-			if strings.Join(r.RTypes, "\x00") != strings.Join(b.RTypes, "\x00") && len(po.RTDiffs) < 10 {
-				po.RTDiffs = append(po.RTDiffs, RTDiff{A: refLabel[k], B: label, OnlyA: minus(r.RTypes, b.RTypes), OnlyB: minus(b.RTypes, r.RTypes)})
-			}
+			// Program.RuntimeTypes is NOT compared across builds: its result varies between two calls on one
+			// unchanged, fully built program (map iteration inside RuntimeTypes + the alias case of
+			// typesinternal.ForEachElement: when the alias spelling of a type is met first its element types are
+			// never visited). It is no observable of the build; see design.d/C18.md §6.
 		}
 	}
 	po.DumpDigest = fmt.Sprintf("%x", h.Sum(nil))
